@@ -181,9 +181,12 @@ func errCode(err error) string {
 
 var (
 	lnames    = []string{"a", "b", "c"}
-	lvalues   = []string{"x", "y", "xy", ""}
+	lvalues   = []string{"x", "y", "xy", "", "xz", "zy", "x$", "yx"}
 	eqValues  = []string{"x", "x", "y", "y", "xy", ""}
-	rePats    = []string{"x", "y", "x|y", "x.*", ".*", ".+", "[xy]", "y?", "", "x+y", "(x|y)+"}
+	rePats    = []string{"x", "y", "x|y", "x.*", ".*", ".+", "[xy]", "y?", "", "x+y", "(x|y)+",
+		// anchors written by the user (around a top-level alternation, on one side only, escaped): a regexp matcher is
+		// matched against the WHOLE value whatever its text looks like
+		"^x|y$", "^x\\$", "^x|y", "x|y$", "^(x|y)$", "^x$|^y$", "^x.*|y$"}
 	receivers = []string{"r0", "r1", "r2", "r3", "r4"}
 	tiNames   = []string{"ti1", "ti2"}
 	gbLabels  = []string{"a", "b", "c", "alertname"}
